@@ -372,7 +372,8 @@ def render_case(draw):
         fr = min(0.5, max(-0.5, fr))
     return {"count": cnt, "frac": fr, "how": draw(st.sampled_from(["default", "precision", "precision", "format", "str", "array", "alwayssign", "imag", "unit_str", "unit_obj",
                                                                     "unit_built", "alwayssign_default"])),
-            "p": p, "w": draw(st.sampled_from(["", "12", "+", "+20", "025", "<14", "^15", "*>16", " ", "*^+21"])), "p0": draw(st.integers(0, 5)) == 0}
+            "p": p, "w": draw(st.sampled_from(["", "12", "+", "+20", "025", "<14", "^15", "*>16", " ", "*^+21"])), "p0": draw(st.integers(0, 5)) == 0,
+            "fk": draw(st.sampled_from(["f", "f", "f", "F", "bare", "bareF"]))}
 
 
 def parse_decimal(s):
@@ -406,7 +407,12 @@ def run_render(case, stt):
                 prec = 1
             if case.get("p0"):
                 prec = 0  # '.0f': no decimals at all is a fixed-point format too
-            s, digits = format(p, "%s.%df" % (case["w"], prec)), prec
+            fk = case.get("fk", "f")
+            if fk.startswith("bare"):
+                prec = 6  # no '.N' part at all: six decimals, as for a float
+                s, digits = format(p, case["w"] + ("F" if fk == "bareF" else "f")), prec
+            else:
+                s, digits = format(p, "%s.%d%s" % (case["w"], prec, fk)), prec
             check(len(s) >= int("".join(ch for ch in case["w"].lstrip("*<>^+ ") if ch.isdigit()) or 0), "format width: {!r} for spec {!r}", s,
                   case["w"])
             s = s.strip("*")
